@@ -124,6 +124,11 @@ template <class B> std::vector<std::pair<B, B>> sub_intervals(int const size)
 void c20::register_enum()
 {
   vrt::shard("uniform_int/enum_subintervals/minstd_rand", [] {
+    roundtrip_uniform_int<e9>("e9:int", {0, 1, 2, 3, 4, 5, 6, 7, 8});
+    roundtrip_uniform_int<e5>("e5:unsigned long", {0, 1, 2, 3, 4});
+    roundtrip_uniform_int<e3>("e3:short", {0, 1, 2});
+    roundtrip_uniform_int<e8>("e8:long long", {0, 1, 2, 3, 4, 5, 6, 7});
+    roundtrip_uniform_int<st_e9>("strong_typedef<e9:int>", {0, 1, 2, 3, 4, 5, 6, 7, 8});
     uniform_int_family<eng_minstd, e9>("e9:int", sub_intervals<int>(9), 0, 1);
     uniform_int_family<eng_minstd, e5>("e5:unsigned long", sub_intervals<unsigned long>(5), 0, 1);
     uniform_int_family<eng_minstd, e3>("e3:short", sub_intervals<short>(3), 0, 1);
